@@ -250,6 +250,7 @@ StringDictionaryHASHHF::StringDictionaryHASHHF(IteratorDictString *it, uint len,
 
   table = builder->getTable();
   hash->finish(bytesStrings);
+  hash->setData(textStrings);
 
   delete builder;
 }
